@@ -5,6 +5,8 @@ COMMON_ASSUMPTIONS = [
     "dependency model: harness build uses /verif/vendor/bitvec-1.1.1-flatspan (untagged BitSpan encoding under cfg(kani)); "
     "validated by running /repo's own 93 tests and a differential test against stock bitvec (bin/validate-bitvec)",
     "bitvec/wyz/radium/funty/tap are compiled without their own debug assertions in the symbolic build",
+    "the 'debug assertions off' configuration (daoff) switches off debug_assert! in bio-seq and the derive, but Kani always compiles with "
+    "-C overflow-checks=on: arithmetic overflow is a reported panic in both configurations and the wrap-around behaviour of release builds is not explored",
     "memory safety of unsafe blocks is not claimed (CBMC pointer/bounds checks off); Rust panics, overflow asserts and debug_assert! are modelled",
     "counterexamples are only reported after they reproduce natively against /repo with the stock bitvec (dev and release profile)",
 ]
@@ -18,7 +20,7 @@ DAOFF = "daoff"
 
 def tiers(pid, quick_cfgs=(DAON,), thorough_cfgs=(DAON, DAOFF)):
     p = pid.lower()
-    return {"probe": [(c, ["%s_p_" % p]) for c in quick_cfgs],
+    return {"probe": [(c, ["%s_p_" % p]) for c in (DAON, DAOFF)],
             "quick": [(c, ["%s_q_" % p]) for c in quick_cfgs],
             "thorough": [(c, ["%s_q_" % p, "%s_t_" % p]) for c in thorough_cfgs]}
 
